@@ -51,9 +51,20 @@ def reply(spec, key, other_key):
     out.extend(spec.get('extra', []))
     block = b'\r\n'.join(out) + b'\r\n\r\n'
     if 'size' in spec:
-        # pad with an unrelated header so that the block (incl. CRLFCRLF) has exactly `size` bytes
-        pad = spec['size'] - len(block) - len(b'X-Pad: \r\n')
-        block = b'\r\n'.join(out + [b'X-Pad: ' + b'p' * pad]) + b'\r\n\r\n'
+        # pad with unrelated header(s) so that the block (incl. CRLFCRLF) has exactly `size` bytes
+        if spec.get('lines'):
+            padlines = []
+            need = spec['size'] - len(block)
+            while need > 0:
+                ln = min(need, 500)
+                if need - ln and need - ln < 12:
+                    ln = need - 12
+                padlines.append(b'X-P%03d: ' % (len(padlines) % 1000) + b'q' * (ln - 10))     # 10 = len('X-Pnnn: ') + CRLF
+                need -= ln
+            block = b'\r\n'.join(out + padlines) + b'\r\n\r\n'
+        else:
+            pad = spec['size'] - len(block) - len(b'X-Pad: \r\n')
+            block = b'\r\n'.join(out + [b'X-Pad: ' + b'p' * pad]) + b'\r\n\r\n'
         assert len(block) == spec['size'], (len(block), spec['size'])
     if spec.get('unterminated'):
         block = block[:-4] + b'\r\nX-More: ' + b'm' * spec['unterminated']
@@ -78,6 +89,11 @@ def spec_families():
         {'extra': [b'Server: lv', b'Date: Thu, 01 Jan 1970 00:00:00 GMT', b'X-Empty:']},
         {'extra': [b'Upgrade: websocket']},
         {'status': b'HTTP/1.1 0101 Padded'},
+        {'extra': [b'Server: Caf\xe9/1.0', b'X-Bin: \xff\xfe\x00\x80']},                 # non-ASCII / non-UTF-8 bytes in unrelated headers
+        {'sep_a': (b':\r\n ', b'')},                                                       # value entirely on a continuation line
+        {'sep_u': (b':\r\n\t', b''), 'sep_a': (b':\r\n   ', b'  ')},
+        {'extra': [b'Sec-WebSocket-Protocol:\r\n chat']},
+        {'sep_a': (b':\r\n ', b''), 'accept': 'other-key'},
     ]
     fam['accept'] = [{'accept': k} for k in ('ok', 'other-key', 'case-swapped', 'lower', 'upper', 'truncated', 'padded', 'empty',
                                               'prefix-junk', 'suffix-junk', 'missing', 'key-itself', 'ok-quoted', 'ok-twice')]
@@ -89,6 +105,7 @@ def spec_families():
     fam['upgrade'] = [{'upgrade': u} for u in (None, b'h2c', b'websocketx', b'web socket', b'', b'websocket ')]
     fam['size'] = [{'size': 16383}, {'size': 16384}, {'size': 16385}, {'size': 16386}, {'size': 20000}, {'size': 40000},
                    {'unterminated': 10}, {'unterminated': 16384}, {'unterminated': 17000}, {'unterminated': 40000},
+                   {'size': 16384, 'lines': True}, {'size': 16385, 'lines': True}, {'size': 24000, 'lines': True},
                    {'size': 16384, 'accept': 'other-key'}, {'size': 16385, 'accept': 'other-key'}, {'size': 16385, 'status': b'HTTP/1.1 404 Nope'}]
     fam['negotiated'] = [
         {'extra': [b'Sec-WebSocket-Protocol: chat']},
